@@ -13,7 +13,9 @@ RULES = {
     "C03": [(r"attrpath/.*", "F02"), (r"select_expression/.*", "F14"), (r"let_expression/let/in", "F15"), (r"function_expression/.*@.*", "F16"),
             (r"(source_code:assert_expression|parenthesized_expression:assert_expression|assert_expression)/.*", "F17"),
             (r"(inherit|inherit_from|inherited_attrs)/.*", "F18"), (r"source_code:[^/]*/\^/.*", "F01"), (r".*", "F20")],
-    "C06": [(r"attrpath/.*", "F02"), (r"source_code:[^/]*/\^/.*", "F01"), (r".*", "F21")],
+    "C06": [(r"attrpath/.*", "F02"), (r"source_code:[^/]*/\^/.*", "F01"), (r"let_expression/in/.*", "GEN:F15"),
+            (r"(source_code|parenthesized_expression):let_expression/.*", "F26"), (r"select_expression/.*", "F14"),
+            (r"(source_code|parenthesized_expression):assert_expression/.*", "F17"), (r".*", "F21")],
     "C18": [(r"attrpath/.*", "F22"), (r"source_code:[^/]*/\^/.*", "F01"), (r".*", "F22")],
 }
 
@@ -41,7 +43,11 @@ def main():
     for (label, fam), e in sorted(pairs.items()):
         fid = next(f for rx, f in RULES[pid] if re.fullmatch(rx, label))
         by_finding[fid] += 1
-        entries.append({"label": label, "family": fam, "finding": fid, "fail": e["fail"], "total": e["total"], "kinds": dict(e["kinds"]), "example": e["example"][:400]})
+        by = "label"
+        if fid.startswith("GEN:"):
+            # excluded through a generator switch of that finding (see known_findings.json), not through this row
+            fid, by = fid[4:], "generator"
+        entries.append({"label": label, "family": fam, "finding": fid, "by": by, "fail": e["fail"], "total": e["total"], "kinds": dict(e["kinds"]), "example": e["example"][:400]})
     out = {"property": pid, "generated_by": "tools/mkquarantine.py from single-gap discovery campaigns on the pinned tree + fix commits", "campaigns": stats,
            "entries": entries, "base_signatures": [{"sig": s, "count": e["count"], "example": e["example"][:300]} for s, e in sorted(base.items(), key=lambda kv: -kv[1]["count"])]}
     json.dump(out, open(os.path.join(ROOT, "quarantine", f"{pid}.json"), "w"), indent=1, ensure_ascii=False)
